@@ -44,6 +44,16 @@ CLAIMED = {
             'C01.K1); that comparing zips have a length agreement (M2); that trust levels are literals set in constructors '
             'only (M3); that the default eval is the conclusion of the expansion (M5).',
             'equality of conclusions of eval and expansion for all arguments is not decided'),
+    'C15': ('certificate and verdict bookkeeping of the CDCL solver, connective / theorem agreement of the Tseitin encoding',
+            'pairing and must-pass-through rules over the statement CFG of the nested solver functions, writer / reader layout agreement of '
+            'the trail tuples, table agreement between the connective test and the list of expansion theorems',
+            'Decides that the certificate of a learned clause starts at the conflict clause and records, with every resolution step, the id of '
+            'the clause resolved with (X1); that the learned clause is stored at the index its certificate is recorded under and that '
+            'unsatisfiability is reported only behind a recorded empty clause (X2); that unit propagation reports satisfiable only after a pass '
+            'with no unsatisfied clause and never passes over one (X3); that trail entries are written and read by one layout and a propagated '
+            'literal names the clause that forced it (X4); that every connective treated as logical by the Tseitin encoding has its expansion '
+            'theorem and literals keep their sign (X5). Necessary conditions of valid certificates; verdict correctness is not decided.',
+            'agreement of the verdict with exhaustive search, termination, equisatisfiability and checker acceptance are run-time properties and not decided'),
     'C17': ('bookkeeping of the congruence closure that answers and explanations rest on',
             'pairing / must-pass-through rules over the statement CFG of merge and _propagate, key agreement between writer and reader of the '
             'proof table, self-argument rule for the explanation chain',
@@ -147,7 +157,6 @@ CLAIMED = {
 }
 
 NOT_APPLICABLE = {
-    'C15': 'SAT solver verdicts, resolution certificates and Tseitin equisatisfiability are invariants of the CDCL trail (runtime assignments, levels, learned clauses); no clause of the statement is visible in the shape of the code',
     'C16': 'correctness of Omega elimination, GCD tightening, simplex pivoting and witness reconstruction is numerical; the checker-acceptance clause is decided by the checker at run time',
     'C20': 'soundness of wp/VC generation is semantic; the print/re-parse clause cannot be decided from tables because imperative/parser2.py has an ambiguous expression grammar resolved by LALR conflict defaults and Op.__str__ is code, not a table',
 }
